@@ -52,11 +52,25 @@ pub fn check_text(pic: &str, text: &str) -> Result<u32, String> {
         ad::parse_direct(kind, text, pic).map_err(|p| format!("Formatter::parse::<{}>({text:?}) with picture {pic:?}: {p}", kind.name()))?;
         calls += 2;
     }
-    for v in fixed_values() {
+    for (vi, v) in fixed_values().into_iter().enumerate() {
         let lv = ad::to_lib(&v).map_err(|e| format!("fixed value rejected: {e:?}"))?;
         ad::format_lazy(&lv, pic).map_err(|p| format!("{} {}: format({pic:?}) into a String sink: {p}", v.kind.name(), v.raw))?;
         ad::format_direct(&lv, pic).map_err(|p| format!("{} {}: Formatter::format({pic:?}): {p}", v.kind.name(), v.raw))?;
         calls += 2;
+        // a sink that itself formats a library value while it is written to (re-entrant use);
+        // a few of the fixed values are enough for the no-panic oracle
+        if vi % 5 == 0 {
+            let (ra, rb, inner) = ad::format_reentrant(&lv, pic).map_err(|p| format!("{} {}: format({pic:?}) into a sink that formats another value while it is written to: {p}", v.kind.name(), v.raw))?;
+            if !inner {
+                return Err(format!("{} {}: format({pic:?}) into a re-entrant sink: the value formatted inside the sink came out wrong", v.kind.name(), v.raw));
+            }
+            if let (ad::FmtOut::Text(x), ad::FmtOut::Text(y)) = (&ra, &rb) {
+                if x != y {
+                    return Err(format!("{} {}: format({pic:?}) into a re-entrant sink: T::format gives {x:?}, Formatter::format gives {y:?}", v.kind.name(), v.raw));
+                }
+            }
+            calls += 2;
+        }
         if pic.len() > 100 {
             ad::format_lazy_specs(&lv, pic).map_err(|p| format!("{} {}: Display with a width/precision spec, picture {pic:?}: {p}", v.kind.name(), v.raw))?;
             calls += 8;
@@ -538,7 +552,7 @@ pub fn run(ctx: &Ctx) -> (Stats, Report) {
     st.section("operation_table_extreme_operands", &mut mark);
 
     let rep = Report {
-        rule: format!("Oracle: catch_unwind - every call returns (a value or an Error). (1) every string up to length {plen} over the picture alphabet as a picture x fixed inputs, and every string up to length {ilen} over a {}-symbol input alphabet (digits, signs, punctuation, letters, tab, newline, NUL, multi-byte characters) as an input x {} fixed pictures, through Formatter::try_new, T::parse, Formatter::parse of all six types and format of 14 boundary values into a String sink (an inapplicable field must surface as Err from the sink, not a panic); (2) proptest grammar pictures of 0..=40 tokens with blank runs up to 600 and random letter case x inputs obtained by formatting a pool value and applying 0..3 mutations (replace / insert / delete / duplicate a character, splice a digit run, a sign, a multi-byte character, control whitespace, truncate); (2b) blank / digit runs of length 2^k-1, 2^k, 2^k+1 (k = 8..20) and long texts / pictures (filler of every length 0..=1100, 6000 in thorough) with a 2-, 3- or 4-byte character across every byte offset, after a valid prefix with a wrong or right separator; (3) every row of the {}-row operation table x pool values x extreme scalars (i32::MIN, u32::MAX, NaN, infinities, subnormals, 1e300) and proptest-generated scalars. Run under the release profile and under a profile with overflow checks and debug assertions. Non-trivial = the picture compiles and the input is non-empty, or a row with an extreme scalar operand.", INPUT_ALPHABET.len(), FIXED_PICTURES.len(), ops.len()),
+        rule: format!("Oracle: catch_unwind - every call returns (a value or an Error). (1) every string up to length {plen} over the picture alphabet as a picture x fixed inputs, and every string up to length {ilen} over a {}-symbol input alphabet (digits, signs, punctuation, letters, tab, newline, NUL, multi-byte characters) as an input x {} fixed pictures, through Formatter::try_new, T::parse, Formatter::parse of all six types and format of 14 boundary values into a String sink (an inapplicable field must surface as Err from the sink, not a panic) and into a re-entrant sink that formats another library value on every chunk it receives; (2) proptest grammar pictures of 0..=40 tokens with blank runs up to 600 and random letter case x inputs obtained by formatting a pool value and applying 0..3 mutations (replace / insert / delete / duplicate a character, splice a digit run, a sign, a multi-byte character, control whitespace, truncate); (2b) blank / digit runs of length 2^k-1, 2^k, 2^k+1 (k = 8..20) and long texts / pictures (filler of every length 0..=1100, 6000 in thorough) with a 2-, 3- or 4-byte character across every byte offset, after a valid prefix with a wrong or right separator; (3) every row of the {}-row operation table x pool values x extreme scalars (i32::MIN, u32::MAX, NaN, infinities, subnormals, 1e300) and proptest-generated scalars. Run under the release profile and under a profile with overflow checks and debug assertions. Non-trivial = the picture compiles and the input is non-empty, or a row with an extreme scalar operand.", INPUT_ALPHABET.len(), FIXED_PICTURES.len(), ops.len()),
         assumptions: vec![
             "unsafe fns and the documented-to-panic WeekDay::from(usize) / Month::from(usize) are outside the quantifier".into(),
             "formatting is observed through write!(&mut String, ..); ToString::to_string() on a Display that reports an error panics inside std by std's contract and is never called".into(),
